@@ -693,6 +693,10 @@ func (ref *Node) DoNewObject(t reflect.Type, m meta.Definition, insideList bool)
 	case reflect.Ptr:
 		return reflect.New(t.Elem()), nil
 	case reflect.Interface:
+		if insideList {
+			// a list item is a container, only the list itself is indexed by key
+			return reflect.ValueOf(make(map[string]interface{})), nil
+		}
 		switch x := m.(type) {
 		case *meta.List:
 			keyMeta := x.KeyMeta()
